@@ -38,6 +38,8 @@ type Solver struct {
 	Time      time.Duration
 	Trace     io.Writer // optional transcript
 	inPath    bool
+	Mirror    *Solver // optional second solver that receives the same session; verdicts are compared
+	Disagree  int
 	Slowest   time.Duration
 	NSlow     int
 	Lost      bool // the process was killed after a hard timeout: the current path context is gone
@@ -78,7 +80,7 @@ func (s *Solver) start() {
 		}
 	}()
 	s.send("(set-option :produce-models true)")
-	if strings.Contains(s.Bin[0], "z3-new") {
+	if strings.Contains(s.Bin[0], "z3-new") || strings.Contains(s.Bin[0], "cvc5") {
 		s.send("(set-logic QF_UFBV)")
 	}
 	if strings.Contains(s.Bin[0], "z3") {
@@ -90,6 +92,10 @@ func (s *Solver) start() {
 }
 
 func (s *Solver) Close() {
+	if s.Mirror != nil {
+		s.Mirror.Close()
+		s.Mirror = nil
+	}
 	if s.cmd != nil {
 		s.in.Close()
 		s.cmd.Process.Kill()
@@ -99,6 +105,10 @@ func (s *Solver) Close() {
 }
 
 func (s *Solver) restart() {
+	if s.Mirror != nil {
+		s.Mirror.Close()
+		s.Mirror = nil
+	}
 	s.Close()
 	s.start()
 }
@@ -109,6 +119,31 @@ func (s *Solver) send(line string) {
 	}
 	io.WriteString(s.in, line)
 	io.WriteString(s.in, "\n")
+	if s.Mirror != nil && !strings.HasPrefix(line, "(get-value") && !strings.HasPrefix(line, "(set-option :timeout") {
+		io.WriteString(s.Mirror.in, line)
+		io.WriteString(s.Mirror.in, "\n")
+	}
+}
+
+// mirrorVerdict reads the second solver's answer to the check that was just sent.
+func (s *Solver) mirrorVerdict() Result {
+	for {
+		l, err := s.Mirror.readLine()
+		if err != nil {
+			s.Mirror = nil
+			return Unknown
+		}
+		switch {
+		case l == "sat":
+			return Sat
+		case l == "unsat":
+			return Unsat
+		case l == "unknown" || l == "timeout":
+			return Unknown
+		case strings.HasPrefix(l, "(error"):
+			return Unknown
+		}
+	}
 }
 
 // BeginPath opens a fresh scope; all declarations/definitions live inside it.
@@ -279,6 +314,13 @@ func (s *Solver) Check(st *Store, assume []*Term, negate []bool) Result {
 			}
 			res = Unknown
 			break
+		}
+	}
+	if s.Mirror != nil {
+		mv := s.mirrorVerdict()
+		if mv != Unknown && res != Unknown && mv != res {
+			s.Disagree++
+			res = Unknown
 		}
 	}
 	dt := time.Since(t0)
